@@ -38,9 +38,9 @@ TIE_THEOREMS = {"tables_ok_rydberg", "tables_ok_raman", "tables_ok_microwave", "
 
 COUNTS = {  # objects per family
     "quick": dict(channel=800, device=500, layout=1000, noise=1000, simconfig=800, register=1000, detmap=1000,
-                  config=700, results=1000),
+                  config=700, results=1000, stateop=600),
     "thorough": dict(channel=8000, device=6000, layout=10000, noise=10000, simconfig=6000, register=10000,
-                     detmap=10000, config=8000, results=10000),
+                     detmap=10000, config=8000, results=10000, stateop=6000),
 }
 
 TRUSTED_BASE = [
@@ -62,7 +62,11 @@ UNCOVERED = [
     "correspondence-free object round-trip monitor only (no Lean model)",
     "NoiseModel JSON round-trip: theorem noise_roundtrip holds under the proviso that parameters no active noise "
     "type uses are unset (the code violates the unrestricted statement: finding C17-F3, Lean counterexample)",
-    "float rounding of temperature/1e6*1e6 in SimConfig: theorem is over Q, monitor uses rtol 1e-12",
+    "SimConfig keeps the temperature in K as a float (value/1e6): the theorem is over Q; the monitor requires "
+    "the value back in the NoiseModel to be exactly the original (C17-F11, repaired) and the intermediate K value "
+    "to agree within rtol 1e-12",
+    "states and operators on their own (per-instance amplitudes/operations/eigenstates, independent of the caller's "
+    "containers): monitor only",
     "aliasing clause (objects never share state): monitor only — Python object identity / class attributes / "
     "mutable defaults are outside the Lean model",
     "legacy encoder (PulserEncoder/PulserDecoder) for devices: monitor only",
@@ -275,6 +279,9 @@ def run_case(model: Model | None, family: str, spec) -> CaseResult:
         return res
     res.obj = obj
     extra: dict = {}
+    if family == "stateop":
+        res.fails = g.run_stateop(spec)
+        return res
     if family == "simconfig":
         res.fails, extra = g.monitor_simconfig(spec, obj)
         res.divs = correspond(model, family, spec, obj, None, None, extra)
@@ -563,7 +570,7 @@ def check(tier: str, seed: int) -> int:
 
     def aliasing_step(family, spec, res: CaseResult):
         """`prev[family]` was built earlier; this case constructed and decoded another object of the class."""
-        if res.obj is None or family in ("simconfig",):
+        if res.obj is None or family in ("simconfig", "stateop"):
             return
         if family in prev:
             pspec, pobj, psnap = prev[family]
